@@ -236,6 +236,7 @@ def entries_c04():
     for m in vocab.BENIGN_MODULES:
         out.append((m, "date"))
         out.append((m, "Fraction"))
+    out += list(vocab.EXEC_ALIASES)
     return out
 
 
